@@ -153,19 +153,26 @@ def _wrap_contents_class(cls):
 
                     handed_out = gen()
                     if iter(it) is not it:
-                        # not a one-pass iterator (a list, e.g.): the consumer must get an object that behaves the
-                        # same way (every `for` starts again at the first line), or the monitor would hide the fact
+                        # not a one-pass iterator (a list, a tuple): the consumer must get an object that behaves the
+                        # same way (every `for` starts again at the first line), or the monitor would hide the fact.
+                        # It becomes a violation where the difference becomes observable: the consumer starts a
+                        # second pass after it has been given lines in the first (with a one-pass iterator it would
+                        # go on after them; now it meets the first lines again).  An empty container (the unchanged
+                        # tree hands out `()` for an empty line range) behaves like an exhausted iterator.
                         COUNT['as_lines_not_an_iterator'] = COUNT.get('as_lines_not_an_iterator', 0) + 1
-                        _viol('M4: as_lines of %s hands out a %s, not a one-pass iterator: a consumer that reads the '
-                              'lines in several consecutive loops (strip, several line ranges) meets the first lines '
-                              'again, i.e. another text than the one as_str gives' % (type(self).__name__,
-                                                                                     type(it).__name__),
-                              mechanism='not-an-iterator', cls=type(self).__name__)
+                        owner = self
 
                         class _Again:
                             def __iter__(self_):
                                 if not consumed and not state['exhausted']:
                                     return gen()
+                                if consumed and not state.get('reported'):
+                                    state['reported'] = True
+                                    _viol('M4: as_lines of %s hands out a %s, not a one-pass iterator, and its consumer '
+                                          'reads the lines in several consecutive loops (as strip and several line '
+                                          'ranges do): it meets the first lines again, i.e. another text than the one '
+                                          'as_str gives' % (type(owner).__name__, type(it).__name__),
+                                          mechanism='not-an-iterator', cls=type(owner).__name__)
                                 return iter(it)
 
                             def __getattr__(self_, name):
